@@ -296,3 +296,57 @@ def to_str_term(value, holes):
     if isinstance(value, str):
         return template_term(value, holes)
     raise TypeError(type(value))
+
+
+class SymDict:
+    """dict replacement whose key lookup compares with == (so symbolic keys fork on equality instead of hashing);
+    installed in place of dict/defaultdict in a module under test (E5/E6 'shadow container')."""
+
+    def __init__(self, default_factory=None):
+        self._items = []
+        self._default = default_factory
+
+    def _find(self, key):
+        for i, (k, _) in enumerate(self._items):
+            if k is key:
+                return i
+        for i, (k, _) in enumerate(self._items):
+            same = k == key
+            if same if isinstance(same, bool) else bool(same):
+                return i
+        return -1
+
+    def __getitem__(self, key):
+        i = self._find(key)
+        if i < 0:
+            if self._default is None:
+                raise KeyError(key)
+            v = self._default()
+            self._items.append((key, v))
+            return v
+        return self._items[i][1]
+
+    def __setitem__(self, key, value):
+        i = self._find(key)
+        if i < 0:
+            self._items.append((key, value))
+        else:
+            self._items[i] = (self._items[i][0], value)
+
+    def __contains__(self, key):
+        return self._find(key) >= 0
+
+    def items(self):
+        return list(self._items)
+
+    def keys(self):
+        return [k for k, _ in self._items]
+
+    def values(self):
+        return [v for _, v in self._items]
+
+    def __iter__(self):
+        return iter(self.keys())
+
+    def __len__(self):
+        return len(self._items)
